@@ -1412,6 +1412,12 @@ func (gs *GossipSubRouter) rpcs(msg *Message) iter.Seq2[peer.ID, *RPC] {
 
 			csum := computeChecksum(gs.p.idGen.ID(msg))
 			for p := range gmap {
+				// A mesh or fanout member that has unsubscribed from the topic (without
+				// pruning us) is no longer in the topic; like every other class of
+				// recipients it must be known to be in the topic.
+				if _, inTopic := tmap[p]; !inTopic {
+					continue
+				}
 				// Check if it has already received an IDONTWANT for the message.
 				// If so, don't send it to the peer
 				if _, ok := gs.unwanted[p][csum]; ok {
